@@ -29,6 +29,15 @@
    * the metamorphic checks evaluated on every observed call
         -> checks_inhabited (scatter output passes them), checks_sound (answers passing the exact
            checks are explained by one score function of the item identifier)
+   * "not on which other candidates accompany it": every candidate scored ALONE with the same query object
+        -> singletons_inhabited (one-item scatters pass `singles_ok` against the full scatter), singletons_sound (answers
+           passing the exact check are [(item, the base call's score of that item)])
+   * scorers that bound their working set evaluate the kernel in blocks (batch / block sizes of the configuration)
+        -> blocked_kernel_pointwise (for EVERY block size: the blocks laid end to end are the known numbers, each block is
+           at most b long, and a pointwise kernel evaluated block by block then scattered through the mask is the pointwise
+           scatter), positional_blocks_misalign (writing block answers by position among the known items is not),
+           int_fields_explored (generated: every integer field of a scorer configuration class is one the generator
+           sets to small values, so block paths run on the small datasets of the correspondence runs)
    PARTIAL: that each numeric kernel (BLAS/torch products, neighbourhood selection, embedding
    look-ups) is pointwise is established by the metamorphic runs (all shipped scorers except HPF,
    which is not installed), not by a theorem; "repeating a call returns identical scores, so
@@ -39,7 +48,8 @@
    (Model/C04_scatter.v `kept_ok`, part of the correspondence term `call_kept_ok`), the remaining
    fields, storage types, raw buffers and the candidate list by the harness (one flag per call). *)
 From Coq Require Import ZArith QArith List Bool Permutation.
-From LK Require Import Lib.QLib Model.C04_scatter Model.C04_repr Gen.C04_sites Gen.C04_numbers Proofs.C04_proofs Proofs.C04_repr.
+From LK Require Import Lib.QLib Model.C04_scatter Model.C04_repr Gen.C04_sites Gen.C04_numbers Proofs.C04_proofs Proofs.C04_repr
+  Proofs.C04_blocks.
 Import ListNotations.
 Open Scope Q_scope.
 
@@ -160,3 +170,48 @@ Example c04_nonvacuous :
   consistent_b 0 (obs_of (mask_scatter vocab (fun ks => rev (kernel ks)) items))
                  (obs_of (mask_scatter vocab (fun ks => rev (kernel ks)) [(10, 9%nat)]%Z)) = false.
 Proof. cbv zeta. split; [vm_compute; reflexivity|]. split; vm_compute; reflexivity. Qed.
+
+(* ---- every candidate scored alone ---- *)
+Theorem singletons_inhabited : forall (F : Type) vocab f (items picked : list (entry F)),
+  incl (map fst picked) (map fst items) ->
+  singles_ok 0 (obs_of (scatter vocab f items)) (map fst picked)
+             (map (fun it => obs_of (scatter vocab f [it])) picked) = true.
+Proof. intros F. exact (@singles_inhabited_l F). Qed.
+Print Assumptions singletons_inhabited.
+
+Theorem singletons_sound : forall (base : obs) (picks : list Z) (singles : list obs),
+  singles_ok 0 base picks singles = true ->
+  Forall2 (fun i o => exists s, o = [(i, s)] /\ opt_eq s (score_fun base i)) picks singles.
+Proof. exact singles_sound_l. Qed.
+Print Assumptions singletons_sound.
+
+(* ---- kernels evaluated in blocks, any block size ---- *)
+Theorem blocked_kernel_pointwise : forall (F : Type) vocab b g (items : list (entry F)) ks,
+  concat (chunks b ks) = ks /\
+  ((0 < b)%nat -> Forall (fun c => (length c <= b)%nat) (chunks b ks)) /\
+  blocked b (map g) ks = map g ks /\
+  mask_scatter vocab (blocked b (map g)) items = scatter vocab g items.
+Proof.
+  intros F vocab b g items ks. split; [apply concat_chunks_fuel|].
+  split; [intro B; apply chunks_fuel_bounded; [apply le_n|exact B]|].
+  split; [apply blocked_pointwise_l|apply blocked_mask_scatter_l].
+Qed.
+Print Assumptions blocked_kernel_pointwise.
+
+(* sensitivity: the same blocks written by position among the KNOWN items (scores[start:end] = block) give an unknown
+   item another item's score and leave the tail unscored *)
+Example positional_blocks_misalign :
+  let vocab := [10; 11; 12]%Z in
+  let items : list (entry nat) := [(12, 7%nat); (99, 8%nat); (10, 9%nat)]%Z in
+  let g := fun k : nat => Some (inject_Z (Z.of_nat k) + 1) in
+  mask_scatter vocab (blocked 1 (map g)) items = [((12%Z, 7%nat), Some 3); ((99%Z, 8%nat), None); ((10%Z, 9%nat), Some 1)] /\
+  positional_scatter vocab (blocked 1 (map g)) items = [((12%Z, 7%nat), Some 3); ((99%Z, 8%nat), Some 1); ((10%Z, 9%nat), None)] /\
+  unknown_ok UMissing vocab (obs_of (positional_scatter vocab (blocked 1 (map g)) items)) = false /\
+  singles_ok 0 (obs_of (positional_scatter vocab (blocked 1 (map g)) items)) [10]%Z
+             [obs_of (positional_scatter vocab (blocked 1 (map g)) [(10, 9%nat)]%Z)] = false.
+Proof. cbv zeta. repeat split; vm_compute; reflexivity. Qed.
+
+(* finite check over the table regenerated from the current source *)
+Theorem int_fields_explored : forallb int_field_explored config_int_fields = true /\ (12 <= length config_int_fields)%nat.
+Proof. split; [vm_compute; reflexivity|vm_compute; repeat constructor]. Qed.
+Print Assumptions int_fields_explored.
